@@ -12,6 +12,7 @@ import (
 	"encoding/hex"
 	"encoding/json"
 	"fmt"
+	"hash/adler32"
 	"math"
 	"os"
 	"os/exec"
@@ -130,8 +131,8 @@ func (c *Ctx) c18Value(bs int) y.ValueStruct {
 	default:
 		n = c.Rng.Intn(300)
 	}
-	if n > 6000 {
-		n = 6000
+	if n > 3000 {
+		n = 3000
 	}
 	v := make([]byte, n)
 	for i := range v {
@@ -221,6 +222,9 @@ func c18SortDedupe(es []kvE) []kvE {
 	return out
 }
 
+// total key+value bytes of one generated table (keeps the Coq case files small)
+var c18MaxBytes = 4500
+
 func (c *Ctx) c18Entries(n, bs int) []kvE {
 	shape := c.Rng.Intn(6)
 	var es []kvE
@@ -239,7 +243,7 @@ func (c *Ctx) c18Entries(n, bs int) []kvE {
 	tot := 0
 	for i, e := range es {
 		tot += len(e.K) + len(e.V.Value) + 16
-		if tot > 24000 && i > 0 {
+		if tot > c18MaxBytes && i > 0 {
 			es = es[:i]
 			break
 		}
@@ -782,6 +786,7 @@ func (c *Ctx) c18TableCase(e *c18Env, o c18Opts, es []kvE, kind string, full boo
 	}
 	// blocks
 	nbk := t.VerifNumBlocks()
+	fullPayload := c.Rng.Intn(5) == 0 || len(es) <= 12
 	var rbs []string
 	var bases [][]byte
 	for i := 0; i < nbk; i++ {
@@ -791,7 +796,11 @@ func (c *Ctx) c18TableCase(e *c18Env, o c18Opts, es []kvE, kind string, full boo
 			return
 		}
 		bases = append(bases, base)
-		rbs = append(rbs, fmt.Sprintf("(%s, %s, %s)", c18B(base), c18B(payload), c18B(cs)))
+		pref := fmt.Sprintf("(PSum %d %d)", len(payload), adler32.Checksum(payload))
+		if fullPayload {
+			pref = "(PFull " + c18B(payload) + ")"
+		}
+		rbs = append(rbs, fmt.Sprintf("(%s, %s, %s)", c18B(base), pref, c18B(cs)))
 	}
 	c.Count(fmt.Sprintf("blocks-%s", c18Bucket(nbk)))
 	meta := fmt.Sprintf("(%s, %s, %d, %d)", c18B(t.Smallest()), c18B(t.Biggest()), t.MaxVersion(), t.KeyCount())
@@ -1334,7 +1343,7 @@ func runC18(c *Ctx) error {
 			o := c.c18RandOpts()
 			n := 1 + c.Rng.Intn(60)
 			full := true
-			if c.Rng.Intn(10) == 0 {
+			if c.Rng.Intn(20) == 0 {
 				n = 100 + c.Rng.Intn(300)
 				full = false
 			}
